@@ -23,7 +23,7 @@ pub(crate) struct DanglingReference {
     pub target: String,
     /// Where the referring object sits (absolute runtime path).
     pub location: String,
-    /// Why the path was refused.
+    /// Why the path was refused (`not found: …`, …).
     pub reason: String,
 }
 
@@ -31,7 +31,7 @@ impl std::fmt::Display for DanglingReference {
     fn fmt(&self, f: &mut std::fmt::Formatter<'_>) -> std::fmt::Result {
         write!(
             f,
-            "{} '{}' not found: {} (referenced from '{}' of the compiled story)",
+            "{} '{}' {} (referenced from '{}' of the compiled story)",
             self.kind, self.target, self.reason, self.location
         )
     }
@@ -53,7 +53,8 @@ struct ContainerNode<'a> {
 #[derive(Clone, Copy, PartialEq, Eq)]
 enum Found {
     Container(usize),
-    Leaf,
+    /// A non-container object, with the container that holds it.
+    Leaf(usize),
 }
 
 enum Component<'a> {
@@ -151,33 +152,51 @@ impl<'a> Tree<'a> {
         keys.join(".")
     }
 
+    fn is_within(&self, container: usize, ancestor: Option<usize>) -> bool {
+        let Some(ancestor) = ancestor else {
+            return false;
+        };
+        let mut current = Some(container);
+        while let Some(index) = current {
+            if index == ancestor {
+                return true;
+            }
+            current = self.nodes[index].parent;
+        }
+        false
+    }
+
     /// `Container::content_at_path`, without the approximation.
     fn follow(&self, start: usize, components: &[Component<'_>]) -> Result<Found, String> {
         let mut current = Found::Container(start);
 
         for component in components {
             let Found::Container(container) = current else {
-                return Err("a component of the path is not a container".to_owned());
+                return Err("not found: a component of the path is not a container".to_owned());
             };
             let node = &self.nodes[container];
             current = match component {
                 Component::Index(index) => match node.content.get(*index) {
                     Some(Slot::Container(child)) => Found::Container(*child),
-                    Some(Slot::Leaf(_)) => Found::Leaf,
+                    Some(Slot::Leaf(_)) => Found::Leaf(container),
                     None => {
                         return Err(format!(
-                            "index {index} is beyond the {} elements of its container",
+                            "not found: index {index} is beyond the {} elements of its container",
                             node.content.len()
                         ));
                     }
                 },
                 Component::Parent => match node.parent {
                     Some(parent) => Found::Container(parent),
-                    None => return Err("the path climbs above the root".to_owned()),
+                    None => return Err("not found: the path climbs above the root".to_owned()),
                 },
                 Component::Name(name) => match node.named.get(name) {
                     Some(child) => Found::Container(*child),
-                    None => return Err(format!("there is no container named '{name}' there")),
+                    None => {
+                        return Err(format!(
+                            "not found: there is no container named '{name}' there"
+                        ));
+                    }
                 },
             };
         }
@@ -212,6 +231,14 @@ struct Reference<'a> {
     always_from_root: bool,
     /// Read counts and choice points need a container, not just any object.
     needs_container: bool,
+}
+
+impl Reference<'_> {
+    /// Diverts, tunnels, threads and calls move the story there; a read
+    /// count, a choice point or a divert target value only name the place.
+    fn transfers_control(&self) -> bool {
+        !self.always_from_root && !self.needs_container
+    }
 }
 
 fn references_of<'a>(object: &'a Map<String, Value>, after_thread: bool) -> Vec<Reference<'a>> {
@@ -278,7 +305,10 @@ pub(crate) fn check_story_references(document: &Value) -> Result<(), DanglingRef
     };
     let tree = Tree::build(root);
 
+    let global_declarations = tree.nodes[0].named.get("global decl").copied();
+
     for (container, node) in tree.nodes.iter().enumerate() {
+        let in_global_declarations = tree.is_within(container, global_declarations);
         let mut after_thread = false;
         for (position, slot) in node.content.iter().enumerate() {
             let Slot::Leaf(leaf) = slot else {
@@ -300,7 +330,7 @@ pub(crate) fn check_story_references(document: &Value) -> Result<(), DanglingRef
                 };
 
                 if reference.target.is_empty() {
-                    return Err(dangling("the path is empty".to_owned()));
+                    return Err(dangling("not found: the path is empty".to_owned()));
                 }
                 let (relative, components) = parse_path(reference.target);
 
@@ -310,15 +340,37 @@ pub(crate) fn check_story_references(document: &Value) -> Result<(), DanglingRef
                 let found = if relative && !reference.always_from_root {
                     match components.split_first() {
                         Some((Component::Parent, rest)) => tree.follow(container, rest),
-                        _ => Err("a relative path must start with '^'".to_owned()),
+                        _ => Err("not found: a relative path must start with '^'".to_owned()),
                     }
                 } else {
                     tree.follow(0, &components)
                 }
                 .map_err(dangling)?;
 
-                if reference.needs_container && found == Found::Leaf {
-                    return Err(dangling("the path does not lead to a container".to_owned()));
+                let target_container = match found {
+                    Found::Container(target) => target,
+                    Found::Leaf(_) if reference.needs_container => {
+                        return Err(dangling(
+                            "not found: the path does not lead to a container".to_owned(),
+                        ));
+                    }
+                    Found::Leaf(holder) => holder,
+                };
+
+                // The global declarations run while the story is being
+                // loaded: they may branch inside themselves (a string with a
+                // conditional in it) but a call or divert out of them would
+                // run story content, possibly without end, before the story
+                // has started.
+                if in_global_declarations
+                    && reference.transfers_control()
+                    && !tree.is_within(target_container, global_declarations)
+                {
+                    return Err(dangling(
+                        "cannot be used in the initial value of a global variable, which must \
+                         be a constant"
+                            .to_owned(),
+                    ));
                 }
             }
         }
